@@ -24,6 +24,31 @@ theorem int_arm (ops : FOps) (v : Int) (d : Bool) :
     · have h0 : Int.tmod v 100 ≠ 0 := fun h0 => h (Int.emod_eq_zero_of_dvd (Int.dvd_of_tmod_eq_zero h0))
       simp [h0, h]
 
+/-- `rk_num` computes the RkNumber of the specification (stated as `rk_spec` in Props/C02) -/
+theorem rkNum_eq_rkSpec (ops : FOps) (w : Nat) : rkNum ops w = rkSpec ops w := by
+  obtain ⟨h1, h2, h3⟩ := byte_masks (w % 256) (Nat.mod_lt _ (by decide))
+  have hd : ((w % 256 &&& 1) != 0) = decide (w % 2 = 1) := by
+    rw [h1]; by_cases h : w % 2 = 1
+    · have : w % 256 % 2 = 1 := by omega
+      simp [h, this]
+    · have : w % 256 % 2 = 0 := by omega
+      simp [h, this]
+  have hI : ((w % 256 &&& 2) != 0) = decide (w / 2 % 2 = 1) := by
+    rw [h2]; by_cases h : w / 2 % 2 = 1
+    · have : w % 256 / 2 % 2 = 1 := by omega
+      simp [h, this]
+    · have : w % 256 / 2 % 2 = 0 := by omega
+      simp [h, this]
+  have hm : (w % 256 &&& 0xFC) + 256 * (w / 256) = 4 * (w / 4) := by rw [h3]; omega
+  have hv : (if 4 * (w / 4) < 2147483648 then ((4 * (w / 4) : Nat) : Int) else ((4 * (w / 4) : Nat) : Int) - 4294967296) >>> 2
+      = (if w / 4 < 536870912 then ((w / 4 : Nat) : Int) else ((w / 4 : Nat) : Int) - 1073741824) := by
+    rw [Int.shiftRight_eq_div_pow]
+    split <;> split <;> omega
+  have hb : 4 * (w / 4) * 4294967296 = w / 4 * 17179869184 := by omega
+  simp only [rkNum, rkSpec]
+  rw [hd, hI, hm, hv, hb, int_arm]
+  by_cases hi : w / 2 % 2 = 1 <;> by_cases hx : w % 2 = 1 <;> simp [hi, hx]
+
 theorem byte_toNat (n : Nat) : (byte n).toNat = n % 256 := by
   simp [byte]
 
@@ -42,5 +67,199 @@ theorem hdr_reads (row col xf : Nat) (tail : Bytes) (hr : row < 65536) (hc : col
   refine ⟨by simp [byte_toNat]; omega, by simp [byte_toNat]; omega, by simp [byte_toNat]; omega, by simp; omega, by simp, ?_⟩
   intro i
   simp [List.getD_eq_getElem?_getD, List.getElem?_cons]
+
+@[simp] theorem le16_length (n : Nat) : (le16 n).length = 2 := rfl
+@[simp] theorem le32_length (n : Nat) : (le32 n).length = 4 := rfl
+@[simp] theorem le64_length (n : Nat) : (le64 n).length = 8 := rfl
+
+theorem u16_le16' (n : Nat) (rest : Bytes) : u16 (le16 n ++ rest) = n % 65536 := by
+  simp [u16, le16, byte_toNat]; omega
+
+theorem u32_le32' (n : Nat) (rest : Bytes) : u32 (le32 n ++ rest) = n % 4294967296 := by
+  simp [u32, le32, byte_toNat]; omega
+
+theorem u16At_append_right (a b : Bytes) (i : Nat) (h : a.length ≤ i) : u16At (a ++ b) i = u16At b (i - a.length) := by
+  simp [u16At, List.drop_append, List.drop_eq_nil_of_le h]
+
+theorem u32At_append_right (a b : Bytes) (i : Nat) (h : a.length ≤ i) : u32At (a ++ b) i = u32At b (i - a.length) := by
+  simp [u32At, List.drop_append, List.drop_eq_nil_of_le h]
+
+theorem u64At_append_right (a b : Bytes) (i : Nat) (h : a.length ≤ i) : u64At (a ++ b) i = u64At b (i - a.length) := by
+  unfold u64At
+  rw [u32At_append_right a b i h, u32At_append_right a b (i + 4) (by omega)]
+  congr 3; omega
+
+theorem byteAt_append_right (a b : Bytes) (i : Nat) (h : a.length ≤ i) : byteAt (a ++ b) i = byteAt b (i - a.length) := by
+  simp [byteAt, List.getD_eq_getElem?_getD, List.getElem?_append_right h]
+
+theorem u64At_le64 (x : Nat) (rest : Bytes) (h : x < 18446744073709551616) : u64At (le64 x ++ rest) 0 = x := by
+  unfold u64At le64
+  have e1 : u32At (le32 x ++ le32 (x / 4294967296) ++ rest) 0 = x % 4294967296 := by
+    simp only [u32At, List.drop_zero, List.append_assoc]; exact u32_le32' _ _
+  have e2 : u32At (le32 x ++ le32 (x / 4294967296) ++ rest) (0 + 4) = x / 4294967296 % 4294967296 := by
+    rw [List.append_assoc, u32At_append_right _ _ _ (by simp)]
+    simp only [le32_length, Nat.zero_add, Nat.sub_self, u32At, List.drop_zero]; exact u32_le32' _ _
+  rw [e1, e2]; omega
+
+/-- `cellHdr` reads -/
+theorem hdr16 (p : PC) (tail : Bytes) (hr : p.row < 65536) (hc : p.col < 65536) (hx : p.xf < 65536) :
+    u16At (cellHdr p ++ tail) 0 = p.row ∧ u16At (cellHdr p ++ tail) 2 = p.col ∧ u16At (cellHdr p ++ tail) 4 = p.xf
+    ∧ (cellHdr p ++ tail).length = 6 + tail.length := by
+  obtain ⟨a, b, c, d, _, _⟩ := hdr_reads p.row p.col p.xf tail hr hc hx
+  exact ⟨a, b, c, d⟩
+
+theorem cellHdr_length (p : PC) : (cellHdr p).length = 6 := rfl
+
+theorem step_number (env : Env) (st : St) (p : PC) (x : Nat) (hr : p.row < 65536) (hc : p.col < 65536)
+    (hx : p.xf < 65536) (hb : x < 18446744073709551616) :
+    step env st ⟨0x0203, cellHdr p ++ le64 x, []⟩ =
+      .ok { st with cells := st.cells ++ [(p.row, p.col, fmtF64 x env.fmts[p.xf]? env.is1904)] } := by
+  obtain ⟨h0, h2, h4, hl⟩ := hdr16 p (le64 x) hr hc hx
+  have h6 : u64At (cellHdr p ++ le64 x) 6 = x := by
+    rw [u64At_append_right _ _ _ (by simp [cellHdr_length]), cellHdr_length]
+    have := u64At_le64 x [] hb
+    simpa using this
+  simp [step, parseNumber, hl, h0, h2, h4, h6]
+
+theorem step_rk (env : Env) (st : St) (p : PC) (w : Nat) (hr : p.row < 65536) (hc : p.col < 65536)
+    (hx : p.xf < 65536) (hw : w < 4294967296) :
+    step env st ⟨0x027E, cellHdr p ++ le32 w, []⟩ =
+      .ok { st with cells := st.cells ++ [(p.row, p.col, fmtNum env.ops (rkNum env.ops w) env.fmts[p.xf]? env.is1904)] } := by
+  obtain ⟨h0, h2, h4, hl⟩ := hdr16 p (le32 w) hr hc hx
+  have h6 : u32At (cellHdr p ++ le32 w) (4 + 2) = w := by
+    rw [u32At_append_right _ _ _ (by simp [cellHdr_length]), cellHdr_length]
+    have := u32_le32 w [] hw
+    simpa [u32At] using this
+  simp [step, parseRk, rkNumAt, hl, h0, h2, h4, h6]
+
+/-! ### strings -/
+
+/-- Unicode scalar values -/
+def validText (s : List Nat) : Prop := ∀ c ∈ s, c < 0xD800 ∨ (0xE000 ≤ c ∧ c < 0x110000)
+
+theorem decodeUtf16_cons2 (u v : Nat) (rest : List Nat) :
+    decodeUtf16 (u :: v :: rest) =
+      if isHigh u then
+        if isLow v then (0x10000 + (u - 0xD800) * 0x400 + (v - 0xDC00)) :: decodeUtf16 rest
+        else 0xFFFD :: decodeUtf16 (v :: rest)
+      else if isLow u then 0xFFFD :: decodeUtf16 (v :: rest)
+      else u :: decodeUtf16 (v :: rest) := by
+  rw [decodeUtf16]
+
+theorem isHigh_false (c : Nat) (h : c < 55296 ∨ 57344 ≤ c) : isHigh c = false := by
+  rw [Bool.eq_false_iff]; unfold isHigh; simp only [ne_eq, Bool.and_eq_true, decide_eq_true_eq]; omega
+
+theorem isLow_false (c : Nat) (h : c < 55296 ∨ 57344 ≤ c) : isLow c = false := by
+  rw [Bool.eq_false_iff]; unfold isLow; simp only [ne_eq, Bool.and_eq_true, decide_eq_true_eq]; omega
+
+theorem toUnits_roundtrip : ∀ (cs : List Nat), validText cs → decodeUtf16 (toUnits cs) = cs
+  | [], _ => rfl
+  | c :: cs, h => by
+    have hc := h c (by simp)
+    have ih := toUnits_roundtrip cs (fun x hx => h x (by simp [hx]))
+    by_cases hb : c < 65536
+    · have hu16 : toUnits (c :: cs) = c :: toUnits cs := by simp [toUnits, hb]
+      have hh : isHigh c = false := isHigh_false c (by omega)
+      have hl : isLow c = false := isLow_false c (by omega)
+      rw [hu16]
+      cases hu : toUnits cs with
+      | nil =>
+        rw [hu] at ih
+        have : cs = [] := by simpa [decodeUtf16] using ih.symm
+        simp [decodeUtf16, hh, hl, this]
+      | cons v r =>
+        rw [decodeUtf16_cons2, ← hu, ih]
+        simp [hh, hl]
+    · have hu16 : toUnits (c :: cs) =
+          (55296 + (c - 65536) / 1024) :: (56320 + (c - 65536) % 1024) :: toUnits cs := by simp [toUnits, hb]
+      rw [hu16, decodeUtf16_cons2, ih]
+      have hh : isHigh (55296 + (c - 65536) / 1024) = true := by
+        unfold isHigh; simp only [Bool.and_eq_true, decide_eq_true_eq]; omega
+      have hl : isLow (56320 + (c - 65536) % 1024) = true := by
+        unfold isLow; simp only [Bool.and_eq_true, decide_eq_true_eq]; omega
+      simp only [hh, hl, if_true, List.cons.injEq, and_true]
+      omega
+
+theorem toUnits_lt : ∀ (cs : List Nat), validText cs → ∀ u ∈ toUnits cs, u < 65536
+  | [], _ => by simp [toUnits]
+  | c :: cs, h => by
+    have hc := h c (by simp)
+    have ih := toUnits_lt cs (fun x hx => h x (by simp [hx]))
+    intro u hu
+    by_cases hb : c < 65536
+    · simp only [toUnits, hb, if_true, List.mem_cons] at hu
+      rcases hu with rfl | hu
+      · exact hb
+      · exact ih u hu
+    · simp only [toUnits, hb, if_false, List.mem_cons] at hu
+      rcases hu with h1 | h1 | hu
+      · omega
+      · omega
+      · exact ih u hu
+
+theorem units16_wide (us : List Nat) (h : ∀ u ∈ us, u < 65536) : units16 (us.flatMap le16) = us := by
+  induction us with
+  | nil => rfl
+  | cons u us ih =>
+    have hu : u < 65536 := h u (by simp)
+    have ih := ih (fun v hv => h v (by simp [hv]))
+    simp only [List.flatMap_cons, le16, List.cons_append, List.nil_append, units16, ih, byte_toNat]
+    congr 1; omega
+
+theorem narrow_units (us : List Nat) (h : ∀ u ∈ us, u < 256) : (us.map byte).map (·.toNat) = us := by
+  induction us with
+  | nil => rfl
+  | cons u us ih =>
+    have hu : u < 256 := h u (by simp)
+    simp only [List.map_cons, byte_toNat]
+    rw [show u % 256 = u by omega]
+    congr 1
+    exact ih (fun v hv => h v (by simp [hv]))
+
+theorem flatMap_le16_length (us : List Nat) : (us.flatMap le16).length = 2 * us.length := by
+  induction us with
+  | nil => rfl
+  | cons u us ih => simp [List.flatMap_cons, ih]; omega
+
+theorem xlString_length (wide : Bool) (s : List Nat) : 3 ≤ (xlString wide s).length := by
+  simp [xlString]; omega
+
+/-- `parse_string` reads back what `xlString` wrote -/
+theorem parse_xlString (wide : Bool) (s : List Nat) (hs : validText s) (hl : (toUnits s).length < 65536) :
+    parseStringWith 3 (xlString wide s) true = .ok s := by
+  have hlen := xlString_length wide s
+  unfold parseStringWith
+  rw [if_neg (by omega)]
+  simp only [if_true]
+  congr 1
+  have hu := toUnits_lt s hs
+  by_cases hw : (wide || !((toUnits s).all (· < 256))) = true
+  · have e : xlString wide s = le16 (toUnits s).length ++ ([1] ++ (toUnits s).flatMap le16) := by
+      simp [xlString, hw]
+    rw [e, u16_le16 _ _ hl]
+    have hf : flagHigh ((le16 (toUnits s).length ++ ([1] ++ (toUnits s).flatMap le16)).getD 2 0) = true := by
+      simp [le16, flagHigh]
+    have hd : (le16 (toUnits s).length ++ ([1] ++ (toUnits s).flatMap le16)).drop 3 = (toUnits s).flatMap le16 := by
+      simp [le16]
+    rw [hf, hd]
+    simp only [decodeTo, if_true, flatMap_le16_length]
+    have : min (2 * (toUnits s).length / 2) (toUnits s).length = (toUnits s).length := by omega
+    rw [this, List.take_of_length_le (by rw [flatMap_le16_length]; omega), units16_wide _ hu]
+    exact toUnits_roundtrip s hs
+  · have hw' : (wide || !((toUnits s).all (· < 256))) = false := by simpa using hw
+    have hall : ∀ u ∈ toUnits s, u < 256 := by
+      simp only [Bool.or_eq_false_iff, Bool.not_eq_false', List.all_eq_true, decide_eq_true_eq] at hw'
+      exact hw'.2
+    have e : xlString wide s = le16 (toUnits s).length ++ ([0] ++ (toUnits s).map byte) := by
+      simp [xlString, hw']
+    rw [e, u16_le16 _ _ hl]
+    have hf : flagHigh ((le16 (toUnits s).length ++ ([0] ++ (toUnits s).map byte)).getD 2 0) = false := by
+      simp [le16, flagHigh]
+    have hd : (le16 (toUnits s).length ++ ([0] ++ (toUnits s).map byte)).drop 3 = (toUnits s).map byte := by
+      simp [le16]
+    rw [hf, hd]
+    simp only [decodeTo, Bool.false_eq_true, if_false, List.length_map, Nat.min_self]
+    rw [List.take_of_length_le (by simp), narrow_units _ hall]
+    exact toUnits_roundtrip s hs
 
 end BiffCells
